@@ -311,3 +311,8 @@ func sortedKeys(m map[string]bool) []string {
 	sort.Strings(out)
 	return out
 }
+
+func underlyingStruct(t types.Type) (*types.Struct, bool) {
+	st, ok := t.Underlying().(*types.Struct)
+	return st, ok
+}
